@@ -102,7 +102,15 @@ func (m *sliceMem) Reallocate(size uint64) []byte {
 	m.buf = m.buf[:size]
 	return m.buf
 }
-func (m *sliceMem) Free() { m.buf = nil }
+func (m *sliceMem) Free() {
+	// what an mmap-based allocator does to the pages, as far as a Go slice can show it: whoever
+	// still reads this buffer afterwards sees a behaviour change
+	b := m.buf[:cap(m.buf)]
+	for i := range b {
+		b[i] = 0xa5
+	}
+	m.buf = nil
+}
 
 func allocator(kind string, shared bool) experimental.MemoryAllocator {
 	return experimental.MemoryAllocatorFunc(func(cap, max uint64) experimental.LinearMemory {
@@ -438,9 +446,18 @@ func TestReplay(t *testing.T) {
 		t.Skip()
 	}
 	var cc struct {
-		Conc *ConcCase `json:"conc"`
+		Conc   *ConcCase `json:"conc"`
+		Failed *FailCase `json:"failed"`
 	}
-	if _, err := evid.LoadReplay(p, &cc); err == nil && cc.Conc != nil {
+	if _, err := evid.LoadReplay(p, &cc); err == nil && cc.Failed != nil {
+		if want, got := runFail(cc.Failed, ""), runFail(cc.Failed, cc.Failed.Alloc); want != got {
+			msg := fmt.Sprintf("without allocator: %s; with: %s", want, got)
+			evid.Violation("replay", map[string]any{"failed": cc.Failed}, "%s", msg)
+			t.Fatal(msg)
+		}
+		return
+	}
+	if cc.Conc != nil {
 		// schedule dependent: a few attempts
 		for i := 0; i < 5; i++ {
 			if msg := RunConcCase(cc.Conc); msg != "" {
